@@ -11,8 +11,12 @@ Open Scope list_scope.
 
 Definition name := list string.                      (* a full name, by components; [] is the empty name *)
 
-Definition name_eq_dec : forall a b : name, {a = b} + {a <> b} := list_eq_dec string_dec.
-Definition name_eqb (a b : name) : bool := if name_eq_dec a b then true else false.
+Fixpoint name_eqb (a b : name) : bool :=
+  match a, b with
+  | [], [] => true
+  | x :: r, y :: s => String.eqb x y && name_eqb r s
+  | _, _ => false
+  end.
 
 Inductive kind := KMessage | KEnum | KService | KOther | KSentinel.
 (* KOther: field, extension, oneof, enum value, method. KSentinel: the name is a package namespace, or the
@@ -34,7 +38,7 @@ Fixpoint lookup (l : list (name * kind)) (n : name) : option kind :=
 Fixpoint is_prefix (a b : name) : bool :=
   match a, b with
   | [], _ => true
-  | x :: r, y :: s => if string_dec x y then is_prefix r s else false
+  | x :: r, y :: s => if String.eqb x y then is_prefix r s else false
   | _ :: _, [] => false
   end.
 
